@@ -79,6 +79,16 @@ def check(ctx):
                 if c[0] == "const" and c[1] == t["expected"]:
                     kinds["trivial-assert"] += 1
                     continue
+                if t["kind"].startswith(("MisalignedPointerDereference", "NullPointerDereference")):
+                    # compiler-inserted debug check of a raw-pointer dereference (present only with debug assertions in
+                    # non-no_std builds): discharged when every raw pointer of the function is a Box's own pointer
+                    ok = _raw_pointers_come_from_boxes(f, pv)
+                    if ok:
+                        kinds["trivial-assert"] += 1
+                    else:
+                        ctx.ob("R-2", "assert:%s:raw-pointer-check" % f.key, False,
+                               "a raw pointer that does not come from a Box is dereferenced in %s" % f.key, where=f.where(bi))
+                    continue
                 vl = vl or VecLen(f)
                 obs = [o for o in vl.obligations if o["bb"] == bi and o["kind"] == "sub"]
                 ok = bool(obs) and all(o["ok"] for o in obs)
@@ -176,14 +186,42 @@ def check(ctx):
     ctx.floor("R-4", "decode loops", nloops, 7)
 
 
+def _raw_pointers_come_from_boxes(f, pv):
+    """every raw-pointer local of f is `<box>.0.pointer` transmuted (how `*boxed` / vec![] lower): Box guarantees
+    non-null and aligned"""
+    for bi, b in enumerate(f.blocks):
+        if b["cleanup"]:
+            continue
+        for si, s in enumerate(b["stmts"]):
+            if s["k"] != "assign" or s["dst"]["p"]:
+                continue
+            ty = f.local_ty(s["dst"]["l"])
+            if not ty.startswith(("*const", "*mut")):
+                continue
+            rv = s["rv"]
+            if rv["k"] == "cast" and rv["kind"] in ("Transmute", "PtrToPtr"):
+                t = pv.operand_term(rv["op"], bi, si)
+                base = t
+                while base[0] == "cast":
+                    base = base[2]
+                if base[0] == "field" and base[2] == "pointer" and base[1][0] == "field" and base[1][2] == "0":
+                    continue   # Box<T>.0 (Unique<T>).pointer (NonNull<T>): the Box's own allocation
+                return False
+            elif rv["k"] == "use":
+                continue
+            else:
+                return False
+    return True
+
+
 def _reach(cg, key, cache):
     if key not in cache:
         cache[key] = cg.reachable([key])
     return cache[key]
 
 
-ALLOWED_ITERS = ("<alloc::vec::IntoIter<", "<core::iter::Rev<core::ops::Range<usize>>", "<alloc::collections::btree_set::IntoIter<",
-                 "<alloc::collections::btree::set::IntoIter<", "<core::ops::Range<usize>")
+ALLOWED_ITERS = ("<alloc::vec::into_iter::IntoIter<", "<core::iter::adapters::rev::Rev<core::ops::range::Range<usize>>", "<alloc::collections::btree::set::IntoIter<",
+                 "<alloc::collections::btree::set::IntoIter<", "<core::ops::range::Range<usize>")
 
 
 def _loop_ok(f, header, body):
@@ -191,7 +229,7 @@ def _loop_ok(f, header, body):
     nexts = []
     for bb in sorted(body):
         t = f.blocks[bb]["term"]
-        if t["k"] == "call" and (t.get("callee") or {}).get("path") == "core::iter::Iterator::next":
+        if t["k"] == "call" and (t.get("callee") or {}).get("path") == "core::iter::traits::iterator::Iterator::next":
             nexts.append(bb)
     if not nexts:
         return False, {"problem": "no Iterator::next call in the loop (loop on a computed condition)"}
@@ -270,7 +308,7 @@ def _invariant(ctx, prog, cg, f, bb, t, which):
             return False, "unwrap operand is %s" % show(op)
         val = op[2][0]
         inner = val[1] if val[0] == "ref" else val
-        if not (inner[0] == "aggr" and inner[1] == "ciborium::Value" and inner[2] == "Array"):
+        if not (inner[0] == "aggr" and inner[1] == "ciborium::value::Value" and inner[2] == "Array"):
             return False, "serialised value is %s" % show(inner)[:80]
         return True, "into_writer(&Value::Array(..), &mut Vec<u8>) cannot fail (ciborium, trusted)"
     if which == "I-enc":
@@ -308,7 +346,7 @@ def _invariant(ctx, prog, cg, f, bb, t, which):
 
 def _value_param(f):
     for i in range(f.arg_count):
-        if f.local_ty(i + 1) == "ciborium::Value":
+        if f.local_ty(i + 1) == "ciborium::value::Value":
             return i
     return None
 
@@ -342,7 +380,7 @@ def _check_scc(ctx, prog, cg, comp):
                     else:
                         # function passed as a value: the receiver of the consuming call is args[0]
                         a = pv.operand_term(t["args"][0], bb, "term") if t["k"] == "call" else None
-                        if t["k"] == "call" and callee_path(t) != "<ciborium::Value as util::ValueTryAs>::try_as_array_then_convert":
+                        if t["k"] == "call" and callee_path(t) != "<ciborium::value::Value as util::ValueTryAs>::try_as_array_then_convert":
                             problems.append("%s passes %s to %s (unknown higher-order use)" % (k, tgt, callee_path(t)))
                             continue
                     if a is None or vp is None:
